@@ -456,6 +456,40 @@ example : loadFile tableKeys 4717 false
     (match saveFile tableKeys ⟨sampleProgram, 24, false⟩ Fmt.P with | .ok f => f | .error _ => [])
     = .ok ⟨sampleProgram, 24, false⟩ := by decide
 
+/-! ### storing a line under memory pressure (MERGE / CHAIN MERGE / ASCII LOAD / retyping a line) -/
+
+/-- `store_line` raises Out of memory exactly when the program AS IT WOULD BE AFTER THE STORE
+    (`pos` bytes before the line, the new line, `restLen` bytes behind it) does not fit; the line being
+    replaced plays no part. -/
+theorem store_oom_iff_final_not_fit (cs stackStart pos length restLen : Nat) :
+    storeOom cs stackStart pos length restLen = true ↔
+      ¬ programFits cs stackStart (pos + length + restLen) := by
+  unfold storeOom programFits
+  simp only [decide_eq_true_eq]
+  omega
+
+/-- Replacing a line by one that is not longer never raises Out of memory when the program in memory
+    fits – in particular MERGE of a program's own listing (every line replaces itself) always succeeds,
+    however little memory is free. `oldLen` = length of the line being replaced. -/
+theorem store_replace_never_oom (cs stackStart pos oldLen length restLen : Nat)
+    (hfit : programFits cs stackStart (pos + oldLen + restLen)) (hle : length ≤ oldLen) :
+    storeOom cs stackStart pos length restLen = false := by
+  unfold storeOom programFits at *
+  simp only [decide_eq_false_iff_not]
+  omega
+
+/-- growing the program by `g` bytes is refused exactly when fewer than `g` bytes are left below the limit -/
+theorem store_grow_oom_iff (cs stackStart pos oldLen restLen g : Nat) :
+    storeOom cs stackStart pos (oldLen + g) restLen = true ↔
+      (stackStart : Int) + 3 - (cs + 1 + (pos + oldLen + restLen)) < g := by
+  unfold storeOom
+  simp only [decide_eq_true_eq]
+  omega
+
+-- non-vacuity: a program that fits with 2 bytes to spare; same-size replacement is fine, 3 more bytes are not
+example : programFits 4717 5000 284 := by unfold programFits; decide
+example : storeOom 4717 5000 100 50 134 = false ∧ storeOom 4717 5000 100 53 134 = true := by decide
+
 /-! ### tie to the source: the mechanically translated loop bodies of protect.py
 
 `PcbV.Gen.Translated.protStep / unprotStep / protNextIndex / unprotNextIndex` are regenerated on every
